@@ -391,8 +391,8 @@ def run_native_replay(o, replay_dir):
     clause."""
     spec = o.get('replay')
     if not spec:
-        return dict(reproduced=False, reason='entry state of the counter-model does not decode into plain Python data '
-                                             '(or the solver gave no model)')
+        return dict(reproduced=False, reason='no native replay: %s' % (o.get('replay_why') or 'the solver gave no model '
+                                                                       '(unknown) or the entry state does not decode into plain data'))
     repo = os.environ.get('PYVC_REPO', '/repo')
     h = hashlib.sha256((o['name'] + str(o['path'])).encode()).hexdigest()[:12]
     os.makedirs(replay_dir if os.path.isabs(replay_dir) else os.path.join(HERE, replay_dir), exist_ok=True)
@@ -449,9 +449,13 @@ def classify_failure(pid, r, o, tier, replay_dir):
     model = o.get('model')
     if o['status'] == 'unknown' or not model:
         cm = refute.finite_scope(r['key'], o['label'], o['path'], tier)
-        info['finite_scope'] = cm
+        info['finite_scope'] = {k: v for k, v in cm.items() if k != 'replay'}
         if cm.get('status') == 'sat':
             model = cm.get('model')
+            if cm.get('replay') and not o.get('replay'):
+                o['replay'] = cm['replay']
+            elif cm.get('replay_why'):
+                o['replay_why'] = cm['replay_why']
         elif cm.get('status') == 'unsat':
             # no counter-model within scope and solver unknown: undecided, not a violation
             info['verdict'] = 'undecided'
